@@ -23,7 +23,9 @@ stream, `a` Append, `r` After; `-` none) · `post <ref> <user> <init|badinit|pin
 `postx <user> <kind>` (a creating POST during which the server closes the new session between `Connect`
 and the publication in `h.sessions` — F20) ·
 `release <slot>` · `abandon <slot>` (the client of that POST goes away, its handler keeps running) ·
-`get|delete|other <ref> <user>` · `tick <ms>` · `close <ref>` · `end`;
+`get|delete|other <ref> <user>` · `tick <ms>` · `close <ref>` · `postb <ref> <user>` (the HEADERS of a POST
+carrying a `ping` arrive, its body follows in pieces; the request is named `u<n>`, n = the harness's count of
+asynchronous requests) · `body <n> more|end` (a piece / the last piece of that body arrives) · `end`;
 `ref` = `-` | `s<k>` (k-th minted id) | `x<n>` (never minted); `user` = `anon|ue|u<n>`.
 -/
 namespace Sessions
@@ -105,6 +107,12 @@ def parseOp (toks : List String) : Option Op :=
   | ["tick", ms] => ms.toNat?.map .tick
   | ["fault", flags] => some (.fault (parseFaults flags))
   | ["close", ref] => (parseRef ref).map .close
+  | ["postb", ref, user] => do
+    let r ← parseRef ref
+    let u ← parseUserTok user
+    if r == .absent then none else some (.postb r u)
+  | ["body", ns, "more"] => ns.toNat?.map (Op.body · false)
+  | ["body", ns, "end"] => ns.toNat?.map (Op.body · true)
   | _ => none
 
 /-! ## parser: observations of the implementation -/
@@ -149,7 +157,9 @@ def parseTag (s : String) : Tag :=
         | some n => .c n
         | none => match prefixed? "r" s with
           | some n => .r n
-          | none => .raw s
+          | none => match prefixed? "u" s with
+            | some n => .u n
+            | none => .raw s
 
 def fieldAt (s : String) (n : Nat) : String := ((s.splitOn "/")[n]?).getD ""
 
@@ -157,7 +167,7 @@ def parseMapEnt (ent : String) : MapEnt :=
   { name := parseName (fieldAt ent 0), badKey := (fieldAt ent 0).endsWith "!key",
     owner := parseOwner (fieldAt ent 1),
     refs := (tailStr (fieldAt ent 2) 1).toNat?.getD 0, timer := fieldAt ent 3 == "t1",
-    closing := fieldAt ent 4 == "c1" }
+    closing := fieldAt ent 4 == "c1", busy := (tailStr (fieldAt ent 5) 1).toNat?.getD 0 }
 
 def parseLogEnt (l : String) : LogEnt :=
   { sess := parseName (fieldAt l 0), who := parseWho (fieldAt l 1), method := .raw (fieldAt l 2) }
@@ -172,6 +182,7 @@ def parseObs (impl : String) : Obs :=
     else if w.startsWith "map:" then ({ ob with map := (splitList (tailStr w 4)).map parseMapEnt }, idx + 1)
     else if w.startsWith "srv:" then ({ ob with srv := (splitList (tailStr w 4)).map parseName }, idx + 1)
     else if w.startsWith "log:" then ({ ob with log := (splitList (tailStr w 4)).map parseLogEnt }, idx + 1)
+    else if w.startsWith "stale:" then ({ ob with stale := (splitList (tailStr w 6)).map parseName }, idx + 1)
     else if idx = 0 then ({ ob with status := parseSt w }, 1)
     else if idx = 1 then ({ ob with hdr := if w == "-" then none else some (parseName w) }, 2)
     else (ob, idx + 1)) ({ status := .raw "" }, 0) |>.1
@@ -212,6 +223,7 @@ def Tag.render : Tag → String
   | .d n => s!"d{n}"
   | .c n => s!"c{n}"
   | .r n => s!"r{n}"
+  | .u n => s!"u{n}"
   | .raw s => s
 
 def Method.render : Method → String
@@ -222,7 +234,7 @@ def Method.render : Method → String
   | .raw s => s
 
 def MapEnt.render (e : MapEnt) : String :=
-  s!"{e.name.render}{if e.badKey then "!key" else ""}/{e.owner.render}/r{e.refs}/t{b2n e.timer}/c{b2n e.closing}"
+  s!"{e.name.render}{if e.badKey then "!key" else ""}/{e.owner.render}/r{e.refs}/t{b2n e.timer}/c{b2n e.closing}/h{e.busy}"
 
 def LogEnt.render (l : LogEnt) : String := s!"{l.sess.render}/{l.who.render}/{l.method.render}"
 
@@ -230,7 +242,7 @@ def LogEnt.render (l : LogEnt) : String := s!"{l.sess.render}/{l.who.render}/{l.
 def Obs.render (o : Obs) : String :=
   let hdr := match o.hdr with | some n => n.render | none => "-"
   let head := s!"{o.status.render} {hdr}{if o.hang then " hang" else ""}"
-  s!"{head} done:{joinOr (sortStrs (o.done.map fun c => s!"{c.1.render}={c.2}"))} map:{joinOr (o.map.map MapEnt.render)} srv:{joinOr (o.srv.map Name.render)} log:{joinOr (sortStrs (o.log.map LogEnt.render))}"
+  s!"{head} done:{joinOr (sortStrs (o.done.map fun c => s!"{c.1.render}={c.2}"))} map:{joinOr (o.map.map MapEnt.render)} srv:{joinOr (o.srv.map Name.render)} log:{joinOr (sortStrs (o.log.map LogEnt.render))} stale:{joinOr (o.stale.map Name.render)}"
 
 def Verb.text : Verb → String
   | .post => "post"
@@ -302,6 +314,10 @@ def SrvClause.text : SrvClause → String
   | .notForgotten n => s!"C11:dead_after_removal: server-side session {n.render} not forgotten"
   | .tableKeeps n => s!"C11:dead_after_removal: handler table keeps {n.render} which the server has dropped"
 
+def CloseClause.text : CloseClause → String
+  | .stuck n => s!"C05+C11:close_terminates: Close of session {n.render} has begun and none of its handlers is running, yet the session is not closed (it is still in the handler's table)"
+  | .timerLeft n => s!"C05+C11:closed_session_timer_never_rearmed: the idle timer of session {n.render} is armed although the session is closed and gone from the handler's table"
+
 def Clause.text : Clause → String
   | .ans c => c.text
   | .log c => c.text
@@ -310,24 +326,27 @@ def Clause.text : Clause → String
   | .key c => c.text
   | .gone c => c.text
   | .srv c => c.text
+  | .close c => c.text
   | .noId => "C11:id_minted_only_on_creating_post: creating initialize answered without a session id"
   | .zombieThen c => s!"{f20Text}; then {c.text}"
 
 def EndClause.text : EndClause → String
-  | .left => "C11:dead_after_removal: requests or sessions left after every session was closed"
+  | .left => "C05+C11:dead_after_removal: requests or sessions left after every session was closed (a Close that does not return, a session that is not forgotten)"
+  | .timersLeft n => s!"C05+C11:closed_session_timer_never_rearmed: {n} idle timer(s) of closed sessions still armed after every session was closed"
   | .zombieLeft => s!"{f20Text}; then C11:dead_after_removal: sessions left after every session was closed"
 
 /-! ## the end-of-case record -/
 
-def EndObs.render (o : EndObs) : String := s!"end stuck={o.stuck} map={o.map} srv={o.srv}"
+def EndObs.render (o : EndObs) : String := s!"end stuck={o.stuck} map={o.map} srv={o.srv} timers={o.timers}"
 
 def parseEnd (impl : String) : Option EndObs :=
   match words impl with
-  | ["end", a, b, c] => do
+  | ["end", a, b, c, t] => do
     let x ← prefixed? "stuck=" a
     let y ← prefixed? "map=" b
     let z ← prefixed? "srv=" c
-    let o : EndObs := { stuck := x, map := y, srv := z }
+    let tm ← prefixed? "timers=" t
+    let o : EndObs := { stuck := x, map := y, srv := z, timers := tm }
     if o.render == impl then some o else none
   | _ => none
 
@@ -349,12 +368,14 @@ def engine : Engine DState where
     | ["reset"] => ({}, { model := "ok" })
     | ["end"] =>
       -- (the unrepaired publication of F20 leaves its dead sessions behind: the model follows it)
-      let want : EndObs := { stuck := 0, map := endLeft d.r, srv := 0 }
+      let want : EndObs := { stuck := 0, map := endLeft d.r, srv := 0, timers := 0 }
       (d, { model := want.render, violated := (monEnd d.mon (parseEnd impl)).map EndClause.text })
     | _ =>
       match parseOp toks with
       | none => (d, { model := "bad-op" })
       | some op =>
+        -- (a POST with a piecewise body is not modelled on a stateless endpoint: the harness refuses it too)
+        if d.r.st.cfg.stateless && (match op with | .postb _ _ | .body _ _ => true | _ => false) then (d, { model := "bad-op" }) else
         let mr := monStep d.r.st.cfg d.mon op (parseObs impl)
         match replayOp d.r op with
         | none => ({ d with mon := mr.mon }, { model := "bad-op", violated := mr.viol.map Clause.text })
